@@ -244,10 +244,11 @@ pub fn err_class(e: &query_engine::QueryError) -> String {
 
 pub struct Built {
     pub ctx: ExecutionContext,
+    pub paths: Vec<(String, std::path::PathBuf)>,
     _tmp: Option<tempfile::TempDir>,
 }
 
-pub fn build_ctx(tables: &[TableData], cfg: &Value, workdir: &str) -> Result<Built, String> {
+pub fn empty_ctx(cfg: &Value, workdir: &str) -> ExecutionContext {
     let mut config = ExecutionConfig::default();
     if let Some(m) = cfg.get("mem_limit").and_then(|v| v.as_u64()) {
         config = config.with_memory_limit(m as usize);
@@ -259,6 +260,12 @@ pub fn build_ctx(tables: &[TableData], cfg: &Value, workdir: &str) -> Result<Bui
     if let Some(p) = cfg.get("partitions").and_then(|v| v.as_u64()) {
         ctx = ctx.with_parallel_partitions(p as usize);
     }
+    ctx
+}
+
+pub fn build_ctx(tables: &[TableData], cfg: &Value, workdir: &str) -> Result<Built, String> {
+    let mut ctx = empty_ctx(cfg, workdir);
+    let mut paths = Vec::new();
     let layout = cfg.get("layout").and_then(|v| v.as_str()).unwrap_or("mem");
     let mut tmp = None;
     if layout == "mem" {
@@ -274,10 +281,54 @@ pub fn build_ctx(tables: &[TableData], cfg: &Value, workdir: &str) -> Result<Bui
         for t in tables {
             let tdir = write_parquet(t, d.path(), files, rg);
             ctx.register_parquet(t.name.clone(), &tdir).map_err(|e| format!("register_parquet: {e}"))?;
+            paths.push((t.name.clone(), tdir));
         }
         tmp = Some(d);
     }
-    Ok(Built { ctx, _tmp: tmp })
+    Ok(Built { ctx, paths, _tmp: tmp })
+}
+
+/// In-process fragment transport: runs the peer's fragment on a second context over the same files
+/// and round-trips the result through Arrow IPC (what the coordinator's own unit tests do).
+pub struct InProc {
+    pub peer: Arc<ExecutionContext>,
+}
+
+#[async_trait::async_trait]
+impl query_engine::distributed::coordinator::FragmentTransport for InProc {
+    async fn send(
+        &self,
+        _address: &str,
+        req: &query_engine::distributed::coordinator::FragmentRequest,
+    ) -> query_engine::Result<(Vec<u8>, usize, f64)> {
+        let (r, _) = query_engine::distributed::coordinator::execute_fragment(&self.peer, req).await?;
+        let bytes = query_engine::distributed::coordinator::encode_ipc(&r.schema, &r.batches)?;
+        Ok((bytes, r.row_count, 0.0))
+    }
+}
+
+async fn run_distributed(
+    built: &Built,
+    cfg: &Value,
+    workdir: &str,
+    sql: &str,
+    n: usize,
+) -> query_engine::Result<(SchemaRef, Vec<RecordBatch>, Value)> {
+    use query_engine::distributed::coordinator::{execute_any_distributed, Participant};
+    let mut peer = empty_ctx(cfg, workdir);
+    for (name, p) in &built.paths {
+        peer.register_parquet(name.clone(), p)?;
+    }
+    let parts: Vec<Participant> = (0..n)
+        .map(|i| Participant { node_id: i as u64 + 1, address: format!("127.0.0.1:{}", 17700 + i), is_self: i == 0 })
+        .collect();
+    let tr = InProc { peer: Arc::new(peer) };
+    let r = execute_any_distributed(&built.ctx, sql, &parts, &tr).await?;
+    let d = &r.distribution;
+    let info = json!({"shape": format!("{:?}", d.shape), "table": d.table, "shard_count": d.shard_count, "total_splits": d.total_splits,
+                      "nodes": d.nodes.iter().map(|c| json!([c.shard_index, c.assigned_splits, c.result_rows, c.local])).collect::<Vec<_>>(),
+                      "partial_sql": d.partial_sql, "final_sql": d.final_sql});
+    Ok((r.result.schema.clone(), r.result.batches, info))
 }
 
 async fn run_unoptimized(ctx: &ExecutionContext, sql: &str) -> query_engine::Result<(SchemaRef, Vec<RecordBatch>)> {
@@ -316,12 +367,19 @@ pub fn run_one(rt: &tokio::runtime::Runtime, tables: &[TableData], sql: &str, un
         Err(e) => return (json!({"k": "err", "cls": "Setup", "msg": e}), json!({"cfg": cfg["name"]})),
     };
     let opt_none = cfg.get("opt").and_then(|v| v.as_str()) == Some("none");
+    let dist = cfg.get("dist").and_then(|v| v.as_u64());
     let sql2 = sql.to_string();
     let ctxref = &built.ctx;
+    let builtref = &built;
+    let dist_info = std::sync::Mutex::new(Value::Null);
     let res = std::panic::catch_unwind(std::panic::AssertUnwindSafe(|| {
         rt.block_on(async {
             let fut = async {
-                if opt_none {
+                if let Some(n) = dist {
+                    let (s, b, info) = run_distributed(builtref, cfg, workdir, &sql2, n as usize).await?;
+                    *dist_info.lock().unwrap() = info;
+                    Ok((s, b))
+                } else if opt_none {
                     run_unoptimized(ctxref, &sql2).await
                 } else {
                     ctxref.sql(&sql2).await.map(|r| (r.schema.clone(), r.batches))
@@ -335,6 +393,10 @@ pub fn run_one(rt: &tokio::runtime::Runtime, tables: &[TableData], sql: &str, un
         query_engine::verif_hooks::set_switch(s.as_str().unwrap(), false);
     }
     let mut meta = json!({"cfg": cfg["name"], "paths": paths});
+    let di = dist_info.lock().unwrap().clone();
+    if !di.is_null() {
+        meta["dist"] = di;
+    }
     let out = match res {
         Err(p) => {
             let msg = if let Some(s) = p.downcast_ref::<&str>() {
